@@ -227,6 +227,9 @@ namespace N // c1
             1; // c13
     [b doIt:a // c14
         and:x]; // c15
+    [b z:1 // c15a
+        aVeryLongSelectorPartHere:2 // c15b
+        c:3]; // c15c
     if (x) // c16
     { // c17
         x++; // c18
